@@ -61,6 +61,13 @@ theorem step_insts_other (fixed : Bool) (c : TCfg) (s : Sys) (op : TOp) (i : Nat
     · refine ⟨?_, rfl⟩
       by_cases hij : i = j <;> simp [upd, hij]
     · exact ⟨rfl, rfl⟩
+  | lateFail j =>
+    refine ⟨?_, rfl⟩
+    show (upd s.insts j (s.insts j).startMonitor i).rescue = (s.insts i).rescue
+    by_cases hij : i = j
+    · subst hij; simp [upd, startMonitor_rescue]
+    · simp [upd, hij]
+  | cancelledAlive j ns n => exact ⟨rfl, rfl⟩
 
 /-- the requests instance `i` decides locally are a run of ITS rescue limiter, whatever the other
 instances and the store do (either script version) -/
